@@ -230,6 +230,26 @@ func consume(out *strings.Builder, id int, s scanner) (n int, cloneOK string, la
 	return
 }
 
+// cloneStress repeats a short text until it exceeds the scanner's initial buffer several times
+// over, so that the buffer the reader's slices point into is shifted and overwritten while the
+// clones are held (runtime clone check only; nothing is printed).
+func cloneStress(text []byte) string {
+	if len(text) == 0 || len(text) > 4096 {
+		return "ok"
+	}
+	reps := 12000/len(text) + 1
+	if reps > 600 {
+		reps = 600
+	}
+	big := bytes.Repeat(append(append([]byte(nil), text...), '\n'), reps)
+	var sink strings.Builder
+	_, cl, _ := consume(&sink, 0, benchfmt.NewReader(bytes.NewReader(big), "stress"))
+	if cl != "ok" {
+		return "stress-" + cl
+	}
+	return "ok"
+}
+
 // guarded runs f with a wall-clock limit and panic recovery; on success its output is
 // printed, otherwise a crash line.
 func guarded(id int, caseLine string, f func(out *strings.Builder)) {
@@ -287,6 +307,9 @@ func runReader(fn string, text []byte, extra ...string) {
 	guarded(id, caseLine, func(out *strings.Builder) {
 		r := benchfmt.NewReader(bytes.NewReader(text), fn)
 		n, cl, _ := consume(out, id, r)
+		if cl == "ok" {
+			cl = cloneStress(text)
+		}
 		ioerr := "-"
 		if err := r.Err(); err != nil {
 			ioerr = hx.HexS("ioerr")
